@@ -287,6 +287,7 @@ def run(ctx):
     docs = [doc(ctx.rng) for _ in range(3000 if ctx.quick() else 40000)]
     common.model_tie(ctx, docs, 'core', 'doc', limit=(1200 if ctx.quick() else 12000))
     common.model_tie(ctx, docs[::3], 'core-hardwrap', 'doc', limit=(400 if ctx.quick() else 4000))
+    common.plugin_model_tie(ctx, 250 if ctx.quick() else 3000)
     import importlib
     importlib.import_module("props.c01").trace_correspondence(ctx, docs[:250 if ctx.quick() else 2500], [configs.C("core"), configs.C("all", plugins=configs.PLUGINS)])
     n = oracle(ctx, docs)
